@@ -244,6 +244,44 @@ def gen_c04(seed, count):
 PYGEN['py_c04'] = gen_c04
 
 
+def gen_c04w(seed, count):
+    """an inbound QoS 1 / QoS 2 delivery with a transport fault (write error, Ok(0), dropped future, slow write) at every
+    I/O position around it, then a resumed connection on which the broker behaves as it must (sends the unacknowledged
+    PUBLISH again with DUP, or its PUBREL): the message is surfaced before anything can acknowledge it (seeded C04-r10
+    wrote the acknowledgement first and lost the message when that write failed)."""
+    out = []
+    kinds = [1, 3, 2, 4]
+    for idx in range(count):
+        r = random.Random((seed << 20) ^ idx ^ 0x6c04)
+        q = 1 + idx % 2
+        kind = kinds[(idx // 2) % len(kinds)]
+        k = (idx // (2 * len(kinds))) % 14
+        pid = r.choice([1, 9, 300, 65535])
+        c = Case(rx=r.choice([32, 64]), tx=r.choice([16, 64, 256]), ka=0)
+        c.connect(connack(0, 0, []))
+        if r.random() < 0.3:
+            c.feed(publish(0, 0, b'q0', b'z'))
+            c.poll()
+        c.feed(publish(q, pid, b't/w', bytes(r.randrange(256) for _ in range(r.randint(0, 6)))))
+        c.poll()
+        if r.random() < 0.5:
+            c.poll()
+        c.drop()
+        c.connect(connack(1, 0, []))
+        c.poll(2)
+        if q == 2:
+            c.feed(publish(2, pid, b't/w', b'again', dup=True))
+            c.poll()
+            c.feed(ack(6, pid, None))
+            c.poll(2)
+        c.ev(*([(0, 1000)] * k + [(kind, r.choice([0, 1, 50]))] + [(0, 1000)] * 40))
+        out.append(c.line())
+    return out
+
+
+PYGEN['py_c04w'] = gen_c04w
+
+
 def gen_c12(seed, count):
     """histories that end badly in every way the property lists, with small and full transmit arenas, followed by a
     connect() over a healthy transport to a conformant broker (broker mode 2) and a little use of the session"""
